@@ -5,6 +5,7 @@ import (
 	"go/ast"
 	"go/token"
 	"go/types"
+	"path/filepath"
 	"sort"
 	"strings"
 )
@@ -75,12 +76,35 @@ func c14Run(r *Run) {
 	if unserFile == "" {
 		r.fail("anchor not found: std/php.parsePhpValue")
 	} else {
+		// … and the text codecs of the package (the files the property names: *encode*, *decode*, bin2hex,
+		// serialize), with the package functions they call
+		isCodecFile := func(name string) bool {
+			b := filepath.Base(name)
+			return strings.Contains(b, "decode") || strings.Contains(b, "encode") || strings.HasPrefix(b, "bin2hex") || strings.HasPrefix(b, "serialize") || strings.HasPrefix(b, "unserialize")
+		}
 		var fds []*ast.FuncDecl
+		inSet := map[*ast.FuncDecl]bool{}
 		for _, fd := range funcDecls(php) {
-			if r.Fset.Position(fd.Pos()).Filename == unserFile {
+			fn := r.Fset.Position(fd.Pos()).Filename
+			if fd.Body != nil && (fn == unserFile || isCodecFile(fn)) {
 				fds = append(fds, fd)
+				inSet[fd] = true
 			}
 		}
+		for i := 0; i < len(fds); i++ {
+			ast.Inspect(fds[i].Body, func(n ast.Node) bool {
+				if c, ok := n.(*ast.CallExpr); ok {
+					if cal := calleeFunc(php.TypesInfo, c); cal != nil && cal.Pkg() == php.Types {
+						if hd := declOf(php, cal); hd != nil && hd.Body != nil && !inSet[hd] {
+							inSet[hd] = true
+							fds = append(fds, hd)
+						}
+					}
+				}
+				return true
+			})
+		}
+		sort.Slice(fds, func(i, j int) bool { return fds[i].Pos() < fds[j].Pos() })
 		a := newIdxAnalyzer(r, php)
 		a.runAll(fds)
 		emit(a, nil)
